@@ -72,4 +72,36 @@ class IntMode:
             q, r = s.memo[key]
             return q if k in (z3.Z3_OP_BUDIV, z3.Z3_OP_BUDIV_I) else r
         if k == z3.Z3_OP_BLSHR and z3.is_bv_value(ch[1]): return s.tr(ch[0]) / (2 ** ch[1].as_long())
+        if k == z3.Z3_OP_ITE: return z3.If(s.trb(ch[0]), s.tr(ch[1]), s.tr(ch[2]))
+        if k == z3.Z3_OP_BSUB:
+            a, b = s.tr(ch[0]), s.tr(ch[1])
+            if s.valid(a >= b): return a - b
+            return (a - b) % (2 ** w)
+        if k in (z3.Z3_OP_BSHL, z3.Z3_OP_BLSHR):
+            # symbolic shift amount: case split over its feasible values (solver-enumerated on the integer side)
+            x = s.tr(ch[0]); amt = s.tr(ch[1]); vals = []
+            sol = z3.Solver(); sol.set('timeout', s.timeout * 1000); sol.add(*s.pre); sol.add(*s.defs); v = z3.Int('shamt%d' % len(s.memo)); sol.add(v == amt)
+            while len(vals) <= 70 and sol.check() == z3.sat:
+                c = sol.model().eval(v, model_completion=True).as_long(); vals.append(c); sol.add(v != c)
+            if not vals or len(vals) > 70: raise Exception('intmode: shift amount not enumerable')
+            r = None
+            for c in vals:
+                e = s.nowrap(x * (2 ** c), w, 'shl %d' % c) if k == z3.Z3_OP_BSHL else x / (2 ** c)
+                r = e if r is None else z3.If(amt == c, e, r)
+            return r
+        if k == z3.Z3_OP_BAND and len(ch) == 2 and z3.is_bv_value(ch[1]) and (ch[1].as_long() & (ch[1].as_long() + 1)) == 0:
+            return s.tr(ch[0]) % (ch[1].as_long() + 1)
         raise Exception('intmode: unsupported term kind %s: %s' % (t.decl().name(), str(t)[:80]))
+    def trb(s, c):
+        k = c.decl().kind(); ch = c.children()
+        if z3.is_true(c) or z3.is_false(c): return c
+        if k == z3.Z3_OP_NOT: return z3.Not(s.trb(ch[0]))
+        if k == z3.Z3_OP_AND: return z3.And([s.trb(x) for x in ch])
+        if k == z3.Z3_OP_OR: return z3.Or([s.trb(x) for x in ch])
+        if k == z3.Z3_OP_EQ and z3.is_bv(ch[0]): return s.tr(ch[0]) == s.tr(ch[1])
+        if k == z3.Z3_OP_ULT: return s.tr(ch[0]) < s.tr(ch[1])
+        if k == z3.Z3_OP_ULEQ: return s.tr(ch[0]) <= s.tr(ch[1])
+        if k == z3.Z3_OP_UGT: return s.tr(ch[0]) > s.tr(ch[1])
+        if k == z3.Z3_OP_UGEQ: return s.tr(ch[0]) >= s.tr(ch[1])
+        if k == z3.Z3_OP_ITE: return z3.If(s.trb(ch[0]), s.trb(ch[1]), s.trb(ch[2]))
+        raise Exception('intmode: unsupported condition %s' % str(c)[:80])
